@@ -53,6 +53,32 @@ static void dump_hdr(JanetFuncDef *def) {
         tmp.slotcount = ks[k];
         printf("%s%d:%d", k ? "," : "", ks[k], janet_verify(&tmp));
     }
+    /* the other tests of janet_verify: table lengths one short, bytecode cut (jump targets, last instruction, symbol map pc
+     * ranges, empty), an opcode outside the table */
+    if (def->bytecode_length <= 3000) {
+        JanetFuncDef tmp = *def;
+        if (def->constants_length > 0) { tmp.constants_length = def->constants_length - 1; printf(",c%d:%d", tmp.constants_length, janet_verify(&tmp)); tmp = *def; }
+        if (def->defs_length > 0) { tmp.defs_length = def->defs_length - 1; printf(",d%d:%d", tmp.defs_length, janet_verify(&tmp)); tmp = *def; }
+        if (def->environments_length > 0) { tmp.environments_length = def->environments_length - 1; printf(",e%d:%d", tmp.environments_length, janet_verify(&tmp)); tmp = *def; }
+        int32_t cuts[] = { 0, 1, def->bytecode_length / 2, def->bytecode_length - 1 };
+        for (int k = 0; k < 4; k++) {
+            int dup = 0;
+            for (int j = 0; j < k; j++) if (cuts[j] == cuts[k]) dup = 1;
+            if (dup || cuts[k] < 0 || cuts[k] >= def->bytecode_length) continue;
+            tmp.bytecode_length = cuts[k];
+            printf(",n%d:%d", cuts[k], janet_verify(&tmp));
+        }
+        tmp = *def;
+        if (def->bytecode_length > 0) {
+            uint32_t *copy = malloc(sizeof(uint32_t) * (size_t) def->bytecode_length);
+            memcpy(copy, def->bytecode, sizeof(uint32_t) * (size_t) def->bytecode_length);
+            int32_t at = def->bytecode_length / 2;
+            copy[at] = (copy[at] & ~0x7Fu) | 0x7Fu;
+            tmp.bytecode = copy;
+            printf(",w%d:%d", at, janet_verify(&tmp));
+            free(copy);
+        }
+    }
     for (int32_t i = 0; i < def->defs_length; i++) {
         printf("/");
         dump_hdr(def->defs[i]);
